@@ -404,6 +404,12 @@ func (m pathmap) str(prefix, indent, curindent string) string {
 }
 
 func (m pathmap) add(path []string, v interface{}) {
+	if len(path) == 0 {
+		// A value at the root (no target, origin or elements) has no element to
+		// be keyed by: show it under the empty key.
+		m[""] = v
+		return
+	}
 	if len(path) == 1 {
 		m[path[0]] = v
 		return
